@@ -399,3 +399,42 @@ def outline_validate(doc: Doc, root_ref: Ref) -> None:
     while todo:
         r = todo.pop()
         todo.extend(kids_of(r))
+
+
+# --------------------------------------------------------------------------
+# 12.3.2 destinations: which page does an outline item lead to
+# --------------------------------------------------------------------------
+def destination_page(doc: Doc, page_refs: List[Ref], by_string: Dict[bytes, Any], by_name: Dict[str, Any],
+                     d: Any) -> Tuple[int, str]:
+    """d: the value of /Dest, or of /D in a go-to action.  -> (1-based page number, how it was specified).
+
+    12.3.2.2: an explicit destination is an array whose first element is the page.  12.3.2.3: a named
+    destination is a name (looked up in the catalog's Dests dictionary) or a string (looked up in the Dests
+    name tree); the value found is the array or a dictionary whose D entry is the array.  Any of these
+    objects may be an indirect reference."""
+    how = "explicit"
+    if isinstance(d, Ref):
+        d = deref(doc, d)
+        how = "explicit_indirect"
+    if isinstance(d, Name) or (isinstance(d, (bytes, bytearray)) and not isinstance(d, Raw)):
+        if isinstance(d, Name):
+            v = by_name[d.b.decode("ascii")]
+            how = "name"
+        else:
+            v = by_string[bytes(d)]
+            how = "string"
+        if isinstance(v, Ref):
+            v = deref(doc, v)
+            how += ">ref"
+        if isinstance(v, dict):
+            v = _get(v, "D")
+            how += ">dict"
+            if isinstance(v, Ref):
+                v = deref(doc, v)
+                how += ">Dref"
+        else:
+            how += ">array"
+        d = v
+    if not isinstance(d, list) or not isinstance(d[0], Ref):
+        raise TreeError("destination is not an array starting with a page reference: %r" % (d,))
+    return page_refs.index(d[0]) + 1, how
